@@ -173,6 +173,84 @@ Definition ase_r (ld : leafdec) (fuel : nat) (h : hdr) (startPos : N) (s : ist) 
   | Err => (Err, s1) | Panic => (Panic, s1) | OutOfFuel => (OutOfFuel, s1)
   end.
 
+(* ------------------------------------------------------------------ evte, stpp: a prefix PROGRAM, then children while bytes remain *)
+(* mp4/eventmessage.go DecodeEvteSR, mp4/stpp.go DecodeStppSR (both reader-path decoders: readBoxBody + private reader):
+     initPos := sr.GetPos(); <prefix reads>; if err := sr.AccError(); err != nil { return nil, err }
+     pos := startPos + uint64(hdr.Hdrlen+sr.GetPos()-initPos)
+     for { rest := payloadLen - (sr.GetPos() - initPos); if rest <= 0 { break }; box, err := DecodeBoxSR(pos, sr); ...; pos += box.Size() }
+     return &b, sr.AccError() *)
+Fixpoint rel_kids (ld : leafdec) (fuel : nat) (plen initPos : Z) (pos : N) (acc : list tree) (s : sst) : res (list tree) * sst :=
+  match fuel with
+  | O => (OutOfFuel, s)
+  | S f =>
+      if (plen - (rpos (sr s) - initPos) <=? 0)%Z then (Ok (rev acc), s)
+      else
+        match dec_box_sr ld f pos s with
+        | (Ok box, s1) => rel_kids ld f plen initPos (addu64 pos (tsize box)) (box :: acc) s1
+        | (Err, s1) => (Err, s1) | (Panic, s1) => (Panic, s1) | (OutOfFuel, s1) => (OutOfFuel, s1)
+        end
+  end.
+
+Definition xentry_sr {A} (p : Z -> xprog A) (ld : leafdec) (fuel : nat) (h : hdr) (startPos : N) (s : sst) : res (A * list tree) * sst :=
+  let initPos := rpos (sr s) in
+  match run_xprog initPos (p (payload_len h)) (sr s) with
+  | Ok (a, r1) =>
+      if rerr r1 then (Err, mkS r1 (scost s))
+      else
+        let pos := addu64 startPos (u64z (Z.of_N (hlen h) + rpos r1 - initPos)) in
+        match rel_kids ld fuel (payload_len h) initPos pos [] (mkS r1 (scost s)) with
+        | (Ok kids, s2) => if rerr (sr s2) then (Err, s2) else (Ok (a, kids), s2)
+        | (Err, s2) => (Err, s2) | (Panic, s2) => (Panic, s2) | (OutOfFuel, s2) => (OutOfFuel, s2)
+        end
+  | Err => (Err, s) | Panic => (Panic, s) | OutOfFuel => (OutOfFuel, s)
+  end.
+Definition xentry_r {A} (p : Z -> xprog A) (ld : leafdec) (fuel : nat) (h : hdr) (startPos : N) (s : ist) : res (A * list tree) * ist :=
+  let '(rb, s1) := read_box_body h s in
+  match rb with
+  | Ok data => (fst (xentry_sr p ld fuel h startPos (mkS (rnew data) (icost s1))), s1)
+  | Err => (Err, s1) | Panic => (Panic, s1) | OutOfFuel => (OutOfFuel, s1)
+  end.
+
+(* counts handed to the string reads are Go ints computed from hdr.payloadLen(); outside [0, 2^61) (no such buffer exists) the model
+   clamps them to 0, so that the programs are local for every header *)
+Definition clampz (z : Z) : Z := if ((-2305843009213693952 <? z) && (z <? 2305843009213693952))%bool%Z then z else 0%Z.
+
+(* evte: sr.SkipBytes(6); DataReferenceIndex = sr.ReadUint16() *)
+Definition evte_prog (plen : Z) : xprog N :=
+  XOp (RSkip 6) (fun _ => XOp RU16 (fun dri => XRet (vN dri))).
+
+(* stpp: SkipBytes(6); ReadUint16; Namespace = ReadZeroTerminatedString(payloadLen - 8);
+   `if maxLen := payloadLen - (sr.GetPos() - initPos); maxLen > 0 { SchemaLocation = ReadZeroTerminatedString(maxLen) } else { nrMissingOptionalEndBytes++ }`,
+   the same for AuxiliaryMimeTypes.  Value: DataReferenceIndex, the three strings, nrMissingOptionalEndBytes *)
+Record stppv := mkStpp { sp_dri : N; sp_ns : list N; sp_sl : list N; sp_am : list N; sp_missing : N }.
+Definition vB (v : rval) : list N := match v with VBytes x => x | _ => [] end.
+Definition stpp_prog (plen : Z) : xprog stppv :=
+  XOp (RSkip 6) (fun _ => XOp RU16 (fun dri => XOp (RZStr (clampz (plen - 8))) (fun ns =>
+    XRelPos (fun z1 =>
+      if ((0 <=? z1) && (z1 <? 4611686018427387904))%bool%Z then
+        (if (0 <? clampz (plen - z1))%Z then
+           XOp (RZStr (clampz (plen - z1))) (fun sl =>
+             XRelPos (fun z2 =>
+               if ((0 <=? z2) && (z2 <? 4611686018427387904))%bool%Z then
+                 (if (0 <? clampz (plen - z2))%Z then
+                    XOp (RZStr (clampz (plen - z2))) (fun am => XRet (mkStpp (vN dri) (vB ns) (vB sl) (vB am) 0))
+                  else XRet (mkStpp (vN dri) (vB ns) (vB sl) [] 1))
+               else XFail))
+         else
+           (* SchemaLocation missing: the position has not moved, so AuxiliaryMimeTypes is missing too *)
+           XRet (mkStpp (vN dri) (vB ns) [] [] 2))
+      else XFail)))).
+
+Definition evte_sr := xentry_sr evte_prog.
+Definition evte_r := xentry_r evte_prog.
+Definition stpp_sr := xentry_sr stpp_prog.
+Definition stpp_r := xentry_r stpp_prog.
+Definition evte_size (v : N * list tree) : N := sum_sizes (snd v) 16.
+(* StppBox.Size(): 8 + 8 + len(Namespace)+1 + len(SchemaLocation)+1 + len(AuxiliaryMimeTypes)+1 - nrMissingOptionalEndBytes + children *)
+Definition stpp_size (v : stppv * list tree) : N :=
+  let a := fst v in
+  sum_sizes (snd v) ((16 + lenN (sp_ns a) + 1 + lenN (sp_sl a) + 1 + lenN (sp_am a) + 1 + 18446744073709551616 - sp_missing a) mod 18446744073709551616).
+
 (* ------------------------------------------------------------------ one box through DecodeBox / DecodeBoxSR (correspondence, C lines) *)
 Definition name_dref : list N := [100; 114; 101; 102].
 Definition name_trep : list N := [116; 114; 101; 112].
@@ -180,9 +258,11 @@ Definition name_wvtt : list N := [119; 118; 116; 116].
 Definition is_ase_name (nm : list N) : bool :=
   existsb (eqb_name nm) [[109;112;52;97]; [101;110;99;97]; [97;99;45;51]; [101;99;45;51]].
 
-Inductive pfxval := PCnt (v : stsd) | PWvtt (v : N * list tree) | PAse (v : asev * list tree).
+Definition name_evte : list N := [101; 118; 116; 101].
+Definition name_stpp : list N := [115; 116; 112; 112].
+Inductive pfxval := PCnt (v : stsd) | PWvtt (v : N * list tree) | PAse (v : asev * list tree) | PEvte (v : N * list tree) | PStpp (v : stppv * list tree).
 Definition pfxval_size (v : pfxval) : N :=
-  match v with PCnt x => stsd_size x | PWvtt x => wvtt_size x | PAse x => ase_size x end.
+  match v with PCnt x => stsd_size x | PWvtt x => wvtt_size x | PAse x => ase_size x | PEvte x => evte_size x | PStpp x => stpp_size x end.
 
 Definition pfxbox_r (bs : list N) : res (pfxval * N) :=
   match decode_header (inew bs) with
@@ -195,6 +275,10 @@ Definition pfxbox_r (bs : list N) : res (pfxval * N) :=
         (let '(r, s2) := wvtt_r pair_leaves (S (length bs)) h 0 s1 in do v <- r; Ok (PWvtt v, ipos s2))
       else if is_ase_name (hname h) then
         (let '(r, s2) := ase_r pair_leaves (S (length bs)) h 0 s1 in do v <- r; Ok (PAse v, ipos s2))
+      else if eqb_name (hname h) name_evte then
+        (let '(r, s2) := evte_r pair_leaves (S (length bs)) h 0 s1 in do v <- r; Ok (PEvte v, ipos s2))
+      else if eqb_name (hname h) name_stpp then
+        (let '(r, s2) := stpp_r pair_leaves (S (length bs)) h 0 s1 in do v <- r; Ok (PStpp v, ipos s2))
       else Err
   | (Ok HEof, _) => Err
   | (Err, _) => Err | (Panic, _) => Panic | (OutOfFuel, _) => OutOfFuel
@@ -213,6 +297,10 @@ Definition pfxbox_sr (bs : list N) : res (pfxval * Z * bool) :=
         (let '(r, s2) := wvtt_sr pair_leaves (S (length bs)) h 0 s1 in do v <- r; Ok (PWvtt v, rpos (sr s2), rerr (sr s2)))
       else if is_ase_name (hname h) then
         (let '(r, s2) := ase_sr pair_leaves (S (length bs)) h 0 s1 in do v <- r; Ok (PAse v, rpos (sr s2), rerr (sr s2)))
+      else if eqb_name (hname h) name_evte then
+        (let '(r, s2) := evte_sr pair_leaves (S (length bs)) h 0 s1 in do v <- r; Ok (PEvte v, rpos (sr s2), rerr (sr s2)))
+      else if eqb_name (hname h) name_stpp then
+        (let '(r, s2) := stpp_sr pair_leaves (S (length bs)) h 0 s1 in do v <- r; Ok (PStpp v, rpos (sr s2), rerr (sr s2)))
       else Err
   | (Err, _) => Err | (Panic, _) => Panic | (OutOfFuel, _) => OutOfFuel
   end.
